@@ -110,22 +110,25 @@ fn oracle(case: &Value, tables: &Tables) -> Option<Violation> {
 impl Check for C03 {
     fn id(&self) -> &'static str { "C03" }
     fn rule(&self) -> String {
-        "one run = one diagram (table knots/links up to 10 crossings and mirrors, kinked diagrams, braid closures, split unions; random crossing order) for which ONE simulated execution computes the bigraded tables over Z (i64 or BigInt), Q, F2, F3, reduced and unreduced, by both library routes (16 Khovanov computations), under a drawn substrate configuration (workers, pick-up, strategy, schedule seed, hash seeds). Checked per execution: routes agree cell by cell; rank_Q = free rank_Z; dim F_p(i,j) = free + p-torsion(i,j) + p-torsion(i+1,j) for p=2,3; over F2 unreduced(i,j) = red(i,j-1)+red(i,j+1). distinct = distinct event-log digests; non-trivial = the diagram has Z-torsion in some bidegree".into()
+        "one run = one diagram (table knots/links up to 10 crossings and mirrors, kinked diagrams, braid closures, split unions, connected sums, ~2% big torus knots/links and their connected sums with 15-24 crossings; random crossing order) for which ONE simulated execution computes the bigraded tables over Z (i64 or BigInt), Q, F2, F3, reduced and unreduced, by both library routes (16 Khovanov computations), under a drawn substrate configuration (workers, pick-up, strategy, schedule seed, hash seeds). Checked per execution: routes agree cell by cell; rank_Q = free rank_Z; dim F_p(i,j) = free + p-torsion(i,j) + p-torsion(i+1,j) for p=2,3; over F2 unreduced(i,j) = red(i,j-1)+red(i,j+1). distinct = distinct event-log digests; non-trivial = the diagram has Z-torsion in some bidegree".into()
     }
     fn assumptions(&self) -> Vec<String> {
         vec![
             "rayon executor semantics modelled by the shim".into(),
-            "the 35-crossing coprime-torsion example named in the property text is out of reach of an in-process simulation; no diagram with <= 11 crossings has odd torsion, so the p=3 relation is exercised with zero 3-torsion only (probe diagrams_with_odd_torsion reports it)".into(),
+            "the 35-crossing example named in the property text is out of reach; torsion other than Z/2 is reached through big torus diagrams drawn in ~2% of the runs: Z/4 in T(4,5) and its connected sums (quick and thorough), Z/3 and Z/5 - including Z/2+Z/5 in one bidegree - in T(5,6) (thorough only, ~4 s per run)".into(),
             "relations are between the library's own answers; the definition-level oracle is C01's".into(),
         ]
     }
-    fn required_probes(&self) -> Vec<&'static str> { vec!["diagrams_with_torsion"] }
+    fn required_probes(&self) -> Vec<&'static str> { vec!["diagrams_with_torsion", "diagrams_with_mixed_torsion_orders"] }
     fn max_steps(&self) -> usize { 50_000_000 }
     fn runs(&self, tier: &str) -> u64 { if tier == "quick" { 4_000 } else { 250_000 } }
     fn gen_case(&self, rng: &mut Rng, _idx: u64, tier: &str) -> Value {
         let max_x = if tier == "quick" { 9 } else { 11 };
         // odd torsion appears late: give the torus-knot-like entries extra weight
-        let (name, pd) = if rng.chance(1, 8) {
+        let (name, pd) = if rng.chance(1, if tier == "quick" { 60 } else { 40 }) {
+            // mixed torsion orders (Z/2 with Z/4, Z/3, Z/5) only exist beyond 14 crossings
+            diag::draw_big(rng, tier != "quick")
+        } else if rng.chance(1, 8) {
             let n = *rng.pick(&["8_19", "10_124", "10_132", "10_139", "10_145"]);
             let pd = diag::table(n);
             if pd.len() <= max_x + 1 { (n.to_string(), if rng.chance(1, 2) { diag::mirror(&pd) } else { pd }) } else { diag::draw(rng, max_x) }
@@ -156,6 +159,10 @@ impl Check for C03 {
                     rep.nontrivial = tors;
                     rep.counters.insert("diagrams_with_torsion".into(), tors as u64);
                     rep.counters.insert("diagrams_with_odd_torsion".into(), odd as u64);
+                    // two different prime powers in one homological degree
+                    let mut by_h: BTreeMap<i32, std::collections::BTreeSet<(String, u32)>> = BTreeMap::new();
+                    for ((i, _), t) in z.iter() { for (p, e) in &t.tors { by_h.entry(*i).or_default().insert((p.to_string(), *e)); } }
+                    rep.counters.insert("diagrams_with_mixed_torsion_orders".into(), by_h.values().any(|s| s.len() >= 2) as u64);
                     rep.outcome_class = format!("{} cells", z.len().min(99));
                     rep.detail = describe_bigraded(z);
                     let mut d = 0u64;
